@@ -354,7 +354,13 @@ def _ivals_base(v, facts, depth):
         return _norm([(None if lo is None else lo + c, None if hi is None else hi + c) for lo, hi in ivals(rest, facts, depth + 1)])
     if o == "ite":
         c = a[0]
-        return _norm(ivals(tm_unfz(a[1]), list(facts) + [c], depth + 1) + ivals(tm_unfz(a[2]), list(facts) + [tm.lnot(c)], depth + 1))
+        # a fact that is itself an ite on the same condition (e.g. truth(ite(c, x, y)) = ite(c, truth(x), truth(y))) contributes its arm
+        ft, ff = list(facts) + [c], list(facts) + [tm.lnot(c)]
+        for f in facts:
+            if isinstance(f, T) and f.op == "ite" and tm.veq(f.args[0], c):
+                ft.append(tm_unfz(f.args[1]))
+                ff.append(tm_unfz(f.args[2]))
+        return _norm(ivals(tm_unfz(a[1]), ft, depth + 1) + ivals(tm_unfz(a[2]), ff, depth + 1))
     if o == "loopout":
         name, kind, cond, body_items, init_items, d = a
         body = dict((k, x) for k, x in body_items)
